@@ -1407,7 +1407,7 @@ func (a *Authenticator) storeClientSession(negotiation *SecurityNegotiation, dur
 	}
 
 	// Create session entry with remote address (using sinful string)
-	entry := NewSessionEntry(negotiation.SessionId, serverAddr, keyInfo, policy, expiration, lease, "")
+	entry := NewSessionEntry(negotiation.SessionId, serverAddr, keyInfo, policy, expiration, lease, a.config.SecurityTag)
 
 	// Store in cache
 	cache.Store(entry)
@@ -1418,7 +1418,7 @@ func (a *Authenticator) storeClientSession(negotiation *SecurityNegotiation, dur
 		for _, cmd := range commands {
 			cmd = strings.TrimSpace(cmd)
 			if cmd != "" {
-				cache.MapCommand("", serverAddr, cmd, negotiation.SessionId)
+				cache.MapCommand(a.config.SecurityTag, serverAddr, cmd, negotiation.SessionId)
 			}
 		}
 	}
